@@ -14,10 +14,16 @@ LOAD_FAULTS = ["eacces", "emfile", "short_read", "crash"]
 
 
 class Kind:
-    def __init__(self, name, save, load, same, save_vias, load_vias, may_refuse=None):
+    def __init__(self, name, save, load, same, save_vias, load_vias, may_refuse=None, feature=None):
         self.name, self.save, self.load, self.same = name, save, load, same
         self.save_vias, self.load_vias = save_vias, load_vias
         self.may_refuse = may_refuse or (lambda v: False)
+        # feature(value) -> short structural tag appended to reject/lost-ack keys (narrow known-finding keys)
+        self.feature = feature or (lambda v: "")
+
+    def tag(self, value):
+        t = self.feature(value)
+        return f":{t}" if t else ""
 
 
 class Store:
@@ -93,7 +99,7 @@ class Store:
                     ctx.probe("save-refused")
                     outcome = "refused"
                 else:
-                    ctx.fail("unexpected-reject", f"save:{kindname}:{type(err).__name__}",
+                    ctx.fail("unexpected-reject", f"save:{kindname}:{type(err).__name__}{kind.tag(value)}",
                              f"fault-free save of a valid {kindname} raised {type(err).__name__}: {err}")
             elif fired and err is not None and not isinstance(err, OSError):
                 # an injected OSError must surface as an OSError, not be converted into wrong behaviour;
@@ -187,7 +193,7 @@ class Store:
                 if hard:
                     ctx.log("load", f"error:{type(err).__name__}", path=path, fired=[f[0] for f in fired])
                     return "error"
-                ctx.fail("lost-ack", f"load:{kindname}:{type(err).__name__}:{via}",
+                ctx.fail("lost-ack", f"load:{kindname}:{type(err).__name__}:{via}{kind.tag(m[2])}",
                          f"acknowledged {kindname} at {path} cannot be loaded via {via}: {type(err).__name__}: {err}")
             if hard:
                 ctx.fail("swallowed-error", f"load:{kindname}:{hard[0][0]}", "load returned although an open fault fired")
